@@ -6,17 +6,28 @@ import shutil
 import apel
 import clirun
 import common
+import mainrun
 from common import Check, lean_batch
 
 TRUSTED = ['Lean 4.33.0 kernel (+ leanchecker in the thorough tier)',
            'axioms: propext, Classical.choice, Quot.sound only (audited per theorem)',
            'harness/c11.py + clirun.py (tree generator, recursive snapshots, in-process CLI runs), Drv.lean protocol parsing',
+           'harness/mainrun.py (recorders substituted for the functions main() calls and for os.path.isdir/isfile, os.walk, os.remove; '
+           'command-line generator; comparison with PelModel/Main.lean)',
            'compiled driver peldrv agrees with the kernel reading of the same definitions']
 ASSUME = ['real filesystem semantics (symlinks, special files, permissions) are outside the model',
-          'os.walk order is a parameter: for --delete the removed file must be one of the candidates']
+          'os.walk order is a parameter: for --delete the removed file must be one of the candidates',
+          'main() is modelled from the namespace argparse returns (Pel.Args), outside a BMC (the parser has -p, not -A); the argument '
+          'parser itself (abbreviations, repeated options, values beginning with "-") is exercised through real command lines, not modelled',
+          'in the main() runs the callees are recorders: that the callees themselves touch only what they are given is the first half of this check']
 RULE = ('cases = (tree with PEL files, junk files, nested directories incl. an archive whose file names contain the id; CLI mode or mix of '
         'modes); the whole tree is snapshotted (path, type, sha1) before and after the real invocation; non-trivial = the tree has at '
-        'least two top-level files and a subdirectory; distinct by (tree, argv)')
+        'least two top-level files and a subdirectory; distinct by (tree, argv).  main() cases = (command line built from the thirteen mode '
+        'options -f -j -i --bmc-id --plid --src --src-exclude -l -n -a -d -D --clean with empty and non-empty values, selection switches, '
+        'answers of isdir/isfile, os.walk file list, return value of parseAndPrintPELFile): the real main() runs with every callee recorded and '
+        'the function reached, its arguments, the Config, exit status/message, the -j call list and main()\'s own os.remove are compared with '
+        'Pel.dispatch; all pairs of mode options co-occur, and the subsets of the thirteen are swept (all 8192 in the thorough tier, 1024 '
+        'sampled in the quick tier); non-trivial = at least two mode options on the command line')
 
 
 def run(tier, seed):
@@ -105,10 +116,19 @@ def run(tier, seed):
         env.uninstall()
         for p in paths:
             shutil.rmtree(p, ignore_errors=True)
-    return ck.finish(RULE, TRUSTED, ASSUME)
+    # main() itself: which function is reached with which arguments (PelModel/Main.lean), all mode-option combinations
+    n_main = mainrun.check_main(ck, tier, 'all')
+    return ck.finish(RULE, TRUSTED, ASSUME, extra={'main_cases': n_main, 'main_sweep': 'all 8192 subsets of the thirteen mode options (x both '
+                                                   'return values of parseAndPrintPELFile when -f is given)' if thorough else
+                                                   '1024 sampled subsets of the thirteen mode options'})
 
 
 def replay(path):
     rp = json.load(open(path))
     print(json.dumps(rp, indent=1)[:3000])
+    if rp.get('op') == 'main':
+        return mainrun.replay(rp)
+    for d in rp.get('disagreements', []):
+        if d.get('replay', {}).get('op') == 'main':
+            return mainrun.replay(d['replay'])
     return 0
